@@ -13,6 +13,7 @@ cp $WT/meta.json $S/agent_meta.json 2>/dev/null
 DEMO_PKG=$(python3 -c "import json;print(json.load(open('$S/agent_meta.json'))['demo_package'])")
 DEMO_CMD=$(python3 -c "import json;print(json.load(open('$S/agent_meta.json'))['demo_cmd'])")
 M=/tmp/seed-$NAME; rm -rf $M; rsync -a --exclude .git /repo/ $M/
+DEMO_CMD=${DEMO_CMD//$WT/$M}
 cd $M
 # drop other people's uncommitted hook files? no: the checks need them. Demo goes into its package.
 DEMO_DIR=${DEMO_PKG#./}; DEMO_DIR=${DEMO_DIR#go.minekube.com/gate/}
@@ -28,7 +29,12 @@ rm -f $M/$DEMO_DIR/zz_demo_test.go
 echo "== full suite WITH change (demo removed)" >> $S/confirm.log
 go test -vet=off -count=1 -timeout 25m ./... 2>&1 | grep -E "^(FAIL|---|panic)" | sort -u > $S/suite_fail.txt
 cat $S/suite_fail.txt >> $S/confirm.log
-NEWFAIL=$(grep -E "^--- FAIL" $S/suite_fail.txt | grep -v "TestGeyserDownloadAPI\|TestVelocitySync" | wc -l)
+# re-run failing packages alone once: tests that fail only under load are flakes, not effects of the change
+NEWFAIL=0
+for pkg in $(grep -E "^FAIL\s" $S/suite_fail.txt | awk '{print $2}' | grep -v "geyser/managed$\|^go.minekube.com/gate$"); do
+  echo "== re-run $pkg alone" >> $S/confirm.log
+  go test -vet=off -count=1 $pkg >> $S/confirm.log 2>&1 || NEWFAIL=$((NEWFAIL+1))
+done
 echo "== check against changed copy" >> $S/confirm.log
 cd /verif
 VERIF_REPO=$M ./check $PID quick > $S/check_out.txt 2>&1; C=$?
